@@ -8,6 +8,7 @@ import vlib
 # harness -> flavours
 PLAN = {
     "c01_parse": ["asan", "plain"],
+    "c05_arith": ["asan"],
 }
 
 
